@@ -315,8 +315,9 @@ class Context:
             "wall_s": round(wall, 2),
             "violations": len(viol),
         }
-        os.makedirs(os.path.join(HERE, "evidence"), exist_ok=True)
-        with open(os.path.join(HERE, "evidence", self.prop + ".json"), "w") as f:
+        evdir = os.environ.get("VF_EVIDENCE_DIR") or os.path.join(HERE, "evidence")
+        os.makedirs(evdir, exist_ok=True)
+        with open(os.path.join(evdir, self.prop + ".json"), "w") as f:
             json.dump(ev, f, indent=1, default=_json_default)
         shutil.rmtree(self.scratch, ignore_errors=True)
         print(f"{self.prop} {self.tier}: {len(passed)} pass, {len(viol)} violation, {len(inconc)} inconclusive "
